@@ -84,6 +84,8 @@ func segs(p string) int {
 }
 
 // c20Pair runs one wrapper function and its documented core composition on the same input.
+var c20AttrPrefix = "-" // the attribute prefix in force for the reference walk
+
 var blanksBeforeLt = regexp.MustCompile("[ \\t\\n\\r]<")
 
 func c20Pair(c *Ctx, k c20Case, choices []int) (nontrivial bool) {
@@ -583,6 +585,19 @@ func c20Pair(c *Ctx, k c20Case, choices []int) (nontrivial bool) {
 				}
 			}
 			core = fmt.Sprintf("%q|err=%v", want, false)
+		case "x2jw.ValuesFromTagPath(@)":
+			// the attribute prefix is an option of the core (C01 domain): attribute entries are the ones carrying it
+			mxj.SetAttrPrefix("@")
+			c20AttrPrefix = "@"
+			defer func() { mxj.SetAttrPrefix("-"); c20AttrPrefix = "-" }()
+			v, e := x2jw.ValuesFromTagPath(k.Xml, k.Path, k.Flag)
+			w = rSet(v, e)
+			m, e2 := xmlMap()
+			if e2 != nil {
+				core = rSet(nil, e2)
+			} else {
+				core = rSet(refNoAttr(map[string]interface{}(m), strings.Split(k.Path, "."), k.Flag), nil)
+			}
 		case "x2jw.ValuesFromTagPath", "x2jw.ReaderValuesFromTagPath":
 			var v []interface{}
 			var e error
@@ -612,6 +627,9 @@ func c20Pair(c *Ctx, k c20Case, choices []int) (nontrivial bool) {
 	c.Outcome(k.Fn + "|" + w)
 	if w != core {
 		shape := "wrapper"
+		if strings.HasSuffix(k.Fn, "(@)") {
+			shape = "non-default-attribute-prefix"
+		}
 		if strings.HasPrefix(k.Fn, "x2jw.XmlMsgsFromFile") {
 			for _, d := range k.Pairs {
 				if blanksBeforeLt.MatchString(d) {
@@ -641,7 +659,7 @@ func refNoAttr(v interface{}, steps []string, getAttrs bool) []interface{} {
 			case map[string]interface{}:
 				if s == "*" {
 					for _, k := range sortedKeys(m) {
-						if strings.HasPrefix(k, "-") && !getAttrs {
+						if strings.HasPrefix(k, c20AttrPrefix) && !getAttrs {
 							continue
 						}
 						rec(m[k], rest)
@@ -827,6 +845,9 @@ func c20Run(c *Ctx) {
 				run(c20Case{Fn: "x2jw.ValuesFromTagPath", Xml: x, Path: p, Flag: flag})
 				run(c20Case{Fn: "x2jw.ReaderValuesFromTagPath", Xml: x, Path: p, Flag: flag})
 				run(c20Case{Fn: "x2jw.ValuesAtTagPath", Xml: x, Path: p, Flag: flag})
+				if strings.Contains(p, "*") && strings.Contains(x, "=\"") {
+					run(c20Case{Fn: "x2jw.ValuesFromTagPath(@)", Xml: x, Path: p, Flag: flag})
+				}
 			}
 		}
 		for _, pr := range pairs {
